@@ -3,6 +3,7 @@
 
   seeded_eval.py import <dir-with-candidates>   confirm each candidate (suite passes, demo fails with / passes without) and keep it under /verif/seeded/<id>/
   seeded_eval.py run [id-substring]             run every registered check against every kept change (scratch clones outside /repo and /verif)
+  seeded_eval.py target [id-substring]          run only the check of the target property against every kept change (merged into seeded/results.json)
 """
 import json, os, shutil, subprocess, sys, tempfile, time
 
